@@ -128,7 +128,11 @@ def gcirc(ra1, dec1, ra2, dec2, units=2):
     delra2 = delra/2.0
     sindis = np.sqrt(np.sin(deldec2)*np.sin(deldec2) +
                      np.cos(dcrad1)*np.cos(dcrad2)*np.sin(delra2)*np.sin(delra2))
-    dis = 2.0*np.arcsin(sindis)
+    #
+    # For almost antipodal points rounding can leave sindis one ulp above 1
+    # (the exact value never exceeds 1); arcsin would then return NaN.
+    #
+    dis = 2.0*np.arcsin(np.minimum(sindis, 1.0))
     if units == 0:
         return dis
     else:
